@@ -250,11 +250,7 @@ func c14CoqEnv(e c14Env) string {
 	for _, v := range e.Vals {
 		vals = append(vals, fmt.Sprintf("%d%%N", v))
 	}
-	keep := []string{}
-	for _, k := range e.Keep {
-		keep = append(keep, fmt.Sprintf("(%d%%N, %d%%N)", k[0], k[1]))
-	}
-	return fmt.Sprintf("mkEnv %s %s %s [%s] [%s] %d%%N %d%%N [] [%s]", opt(e.Opts[0]), opt(e.Opts[1]), opt(e.Opts[2]), strings.Join(act, "; "), strings.Join(vals, "; "), e.Bounty, e.Exec, strings.Join(keep, "; "))
+	return fmt.Sprintf("mkEnv %s %s %s [%s] [%s] %d%%N %d%%N []", opt(e.Opts[0]), opt(e.Opts[1]), opt(e.Opts[2]), strings.Join(act, "; "), strings.Join(vals, "; "), e.Bounty, e.Exec)
 }
 
 func jsonAmt(v string) string {
@@ -367,9 +363,6 @@ func (r *c14Run) deliver(op c14Op, tx []byte, feeKind bool) c14Op {
 	e := r.envRaw()
 	res := r.rep.DeliverTx(tx)
 	op.Ok = res.Code == 0
-	if op.Kind == "finalize" {
-		e.Keep = r.survivors(r.rep.View())
-	}
 	op.Env = r.intern(e)
 	op.Fee = "0"
 	if op.Ok && feeKind {
@@ -616,11 +609,6 @@ func (r *c14Run) randomOp(g *c14Gen, h int64) {
 		}
 		r.doCancel(id, who)
 	case k < 84:
-		if r.pubFin {
-			// not modelled: after fund records were deleted in this block, IsFundedByFunder's iteration stops at the
-			// deleted keys and refuses withdrawals on proposals sorted after them until the next block
-			return
-		}
 		id := anyID(func(p *c14PObs) bool { return p.Outcome == 4 || p.Outcome == 1 || (p.Stores == 1 && p.Status == 0 && p.Fdl < h) })
 		if id < 0 {
 			return
@@ -689,7 +677,6 @@ func (r *c14Run) endBlock() *c14Obs {
 	r.rep.EndBlock()
 	r.rep.Commit()
 	dump := r.rep.Dump()
-	e.Keep = r.survivors(dump)
 	r.c.Ops = append(r.c.Ops, c14Op{Kind: "end", Env: r.intern(e), Ok: true, Fee: "0"})
 	o := r.observe(dump)
 	r.c.Obs = append(r.c.Obs, o)
@@ -787,7 +774,9 @@ func c14ScriptNegative() *c14Case {
 	r.endBlock()
 	r.beginBlock()
 	r.doWithdraw(0, 1, "5000000000", 1)
+	r.c.Notes["negfund_refund_ok"] = r.c.Ops[len(r.c.Ops)-1].Ok
 	r.doWithdraw(0, 2, "-1", 2)
+	r.c.Notes["negwithdraw_ok"] = r.c.Ops[len(r.c.Ops)-1].Ok
 	r.endBlock()
 	return r.finish()
 }
@@ -821,10 +810,15 @@ func c14ScriptDrift() *c14Case {
 	r.doVote(1, v1, 1)
 	r.doVote(1, v2, 2) // yes 2/3 < 80%, 1-no = 2/3 < 80%: FAILED under the new option
 	r.endBlock()
+	var last *c14Obs
 	for i := 0; i < 2; i++ {
 		r.beginBlock()
-		r.endBlock()
+		last = r.endBlock()
 	}
+	p1 := last.Props[1]
+	r.c.Notes["drift_p1_outcome_yes"] = p1 != nil && p1.Outcome == 5
+	r.c.Notes["drift_p1_two_stores"] = last.Anom
+	r.c.Notes["drift_applied"] = last.Applied
 	return r.finish()
 }
 
@@ -858,10 +852,15 @@ func c14ScriptLife() *c14Case {
 			r.doFinalize(0, 5)
 			// p0 was finalised after p1 in the same EndBlock: its funder records survived; a zero withdrawal now succeeds
 			r.doWithdraw(0, 2, "0", 2)
+			r.c.Notes["stale_zero_withdraw_ok"] = r.c.Ops[len(r.c.Ops)-1].Ok
 			r.doWithdraw(0, 2, "1", 2)
 			r.doWithdraw(1, 3, "0", 3)
 		}
-		r.endBlock()
+		o := r.endBlock()
+		if i == 1 {
+			r.c.Notes["stale_survivors"] = len(r.survivors(r.rep.Dump()))
+			r.c.Notes["stale_two_stores"] = o.Anom
+		}
 	}
 	return r.finish()
 }
@@ -929,7 +928,7 @@ func c14WriteCoq(path string, cases []*c14Case, na int) {
 	for ci, c := range cases {
 		sb.WriteString(fmt.Sprintf("Module C%d.\n", ci))
 		if len(c.Envs) == 0 {
-			sb.WriteString("Definition e0 : env := mkEnv (mkOpts 0 0 0 0 (mkDist 0 0 0 0 0) (mkDist 0 0 0 0 0)) (mkOpts 0 0 0 0 (mkDist 0 0 0 0 0) (mkDist 0 0 0 0 0)) (mkOpts 0 0 0 0 (mkDist 0 0 0 0 0) (mkDist 0 0 0 0 0)) [] [] 0%N 0%N [] [].\n")
+			sb.WriteString("Definition e0 : env := mkEnv (mkOpts 0 0 0 0 (mkDist 0 0 0 0 0) (mkDist 0 0 0 0 0)) (mkOpts 0 0 0 0 (mkDist 0 0 0 0 0) (mkDist 0 0 0 0 0)) (mkOpts 0 0 0 0 (mkDist 0 0 0 0 0) (mkDist 0 0 0 0 0)) [] [] 0%N 0%N [].\n")
 		}
 		for i, e := range c.Envs {
 			sb.WriteString(fmt.Sprintf("Definition e%d : env := %s.\n", i, e))
